@@ -18,7 +18,13 @@ PARTIAL = ['C10_dollars_closing_first_partial, C10_dollars_read_math_partial, C1
            'inline); (b) C10_dollars_bounded / _two_letters: for ALL strings over {$,a} to length 14 and {$,a,b} to length 9, strict '
            'and tolerant, default context, the parse agrees with an independent reading of the dollar runs (vm_compute sweep, bound '
            'in the statement); (c) the instances $a$$b$ and $$a$$. The oracle checks the same reference on the real code for every '
-           'generated string over {$, a}.']
+           'generated string over {$, a}.',
+           'C10_dollars_grammar_partial, C10_dollars_math_nodes_partial, C10_dollars_tree_partial (composition with '
+           'C02_parse_unparse_partial): for EVERY context and EVERY dollar document of the core document grammar (text runs and '
+           'inline $..$ formulas with text bodies, any size) satisfying ok_doc, the parse has exactly one chars node in text mode per '
+           'maximal text run and one inline math node ($,$, recorded in text mode) per formula whose body is one chars node in math '
+           'mode with delimiter $; the math nodes of the parse are the formulas of the document. Partial w.r.t. DESIGN: the core '
+           'grammar has no $$..$$ display item (covered by (a)-(c) above); formula bodies are text only.']
 REFUTED = []
 CASE_TIMEOUT = 10.0
 case_from_desc = PC.case_from_desc
